@@ -189,3 +189,44 @@ def opcode_switches(facts, qname, which=None):
     if not out:
         raise AnalysisBroken('no op-code switch found in ' + qname)
     return out
+
+
+# ---------------------------------------------------------------- grammar obligation of the '//' pattern step (C03-R7, lemma of C09-R1)
+DSLASH = ('XPathExpression::eMATCH_ANY_ANCESTOR_WITH_PREDICATE', 'XPathExpression::eMATCH_ANY_ANCESTOR_WITH_FUNCTION_CALL')
+
+
+def dslash_obligation(facts):
+    """In LocationPathPattern every path from an emission of a '//' step to the normal exit must pass through a call of
+    RelativePathPattern (the grammar: '//'? RelativePathPattern) or end in error().  Returns (emission count, [violations])."""
+    from ..mast import CFG, reach_with_constants
+    from . import common
+    out = []
+    n = 0
+    for a in facts.asts('XPathProcessorImpl::LocationPathPattern'):
+        cfg = CFG(a)
+        emit_nodes = []
+        for nd in cfg.nodes:
+            if nd.ast is None or nd.kind not in ('stmt', 'cond'):
+                continue
+            for c in calls(nd.ast):
+                if (c.get('n') in EMITTERS):
+                    for arg in c['args']:
+                        sa = strip_casts(arg)
+                        if sa is not None and sa.get('k') == 'Ref' and short(sa.get('q', '')) in DSLASH:
+                            emit_nodes.append((nd, short(sa['q']), c.get('l')))
+
+        def discharges(nd):
+            if nd.ast is None:
+                return False
+            for c in calls(nd.ast):
+                if c.get('n') == 'RelativePathPattern':
+                    return True
+            return False
+        for nd, code, line in emit_nodes:
+            n += 1
+            seen = reach_with_constants(cfg, nd, discharges)
+            if cfg.exit.id in seen:
+                out.append({'code': code, 'line': line, 'file': a['file'].replace('/repo/', '')})
+    if n == 0:
+        raise AnalysisBroken("no emission of a '//' pattern step found in LocationPathPattern")
+    return n, out
